@@ -66,6 +66,44 @@ var consumers = []consumer{
 	{name: "marshal-rawmessage-field", wrap: func(d []byte) []byte { return d },
 		pkg: func(w []byte) error { _, err := json.Marshal(&rawHolder{K: w}); return err },
 		std: func(w []byte) error { _, err := stdjson.Marshal(&rawHolder{K: w}); return err }},
+	// raw values among valid siblings, in the positions the sorted and the unsorted map encoders
+	// and the slice encoder visit first, in between and last
+	{name: "marshal-rawmessage-map-first", wrap: func(d []byte) []byte { return d },
+		pkg: func(w []byte) error {
+			_, err := json.Marshal(map[string]json.RawMessage{"a": w, "b": json.RawMessage(`1`), "c": json.RawMessage(`[2]`)})
+			return err
+		},
+		std: func(w []byte) error {
+			_, err := stdjson.Marshal(map[string]stdjson.RawMessage{"a": w, "b": stdjson.RawMessage(`1`), "c": stdjson.RawMessage(`[2]`)})
+			return err
+		}},
+	{name: "marshal-rawmessage-map-middle", wrap: func(d []byte) []byte { return d },
+		pkg: func(w []byte) error {
+			_, err := json.Marshal(map[string]json.RawMessage{"a": json.RawMessage(`{}`), "b": w, "c": json.RawMessage(`"x"`)})
+			return err
+		},
+		std: func(w []byte) error {
+			_, err := stdjson.Marshal(map[string]stdjson.RawMessage{"a": stdjson.RawMessage(`{}`), "b": w, "c": stdjson.RawMessage(`"x"`)})
+			return err
+		}},
+	{name: "marshal-rawmessage-slice", wrap: func(d []byte) []byte { return d },
+		pkg: func(w []byte) error {
+			_, err := json.Marshal([]json.RawMessage{json.RawMessage(`0`), w, json.RawMessage(`null`)})
+			return err
+		},
+		std: func(w []byte) error {
+			_, err := stdjson.Marshal([]stdjson.RawMessage{stdjson.RawMessage(`0`), w, stdjson.RawMessage(`null`)})
+			return err
+		}},
+	{name: "marshal-marshaler-map", wrap: func(d []byte) []byte { return d },
+		pkg: func(w []byte) error {
+			_, err := json.Marshal(map[string]any{"a": rawMarshaler{w}, "b": 1, "c": rawMarshaler{[]byte(`true`)}})
+			return err
+		},
+		std: func(w []byte) error {
+			_, err := stdjson.Marshal(map[string]any{"a": rawMarshaler{w}, "b": 1, "c": rawMarshaler{[]byte(`true`)}})
+			return err
+		}},
 	{name: "unmarshal-rawmessage", wrap: func(d []byte) []byte { return d },
 		pkg: func(w []byte) error { var r json.RawMessage; return json.Unmarshal(w, &r) },
 		std: func(w []byte) error { var r stdjson.RawMessage; return stdjson.Unmarshal(w, &r) }},
@@ -318,9 +356,13 @@ func runNumberGrammar(c *core.Case) {
 
 var depths = []int{1, 2, 100, 1000, 5000, 9999, 10000, 10001, 10002, 12000, 20000}
 
+// what sits at the bottom: a scalar, or one more (empty) level that counts like any other
+var innermost = []string{"1", "[]", "{}", "[ ]", `""`, "[[]]", `{"":{}}`, "null"}
+
 func runNesting(c *core.Case) {
 	depth := depths[c.Index%len(depths)]
-	shape := c.Index / len(depths)
+	shape := (c.Index / len(depths)) % 3
+	inner := innermost[c.Index/(3*len(depths))]
 	cl := "nesting<=10000"
 	if depth > 10000 {
 		cl = "nesting>10000"
@@ -336,7 +378,7 @@ func runNesting(c *core.Case) {
 		open, close = `[{"k":`, "}]"
 		depth /= 2
 	}
-	d := []byte(strings.Repeat(open, depth) + "1" + strings.Repeat(close, depth))
+	d := []byte(strings.Repeat(open, depth) + inner + strings.Repeat(close, depth))
 	for k := 0; k < nCons; k++ {
 		ci := consIndex(k)
 		if ci == decoderConsumer {
@@ -346,7 +388,7 @@ func runNesting(c *core.Case) {
 	}
 	c.Count("docs.nesting", 1)
 	c.Distinct(uint64(c.Index)+9000, true)
-	c.Sample(depth, map[string]any{"sub": "nesting", "depth": depth, "open": open})
+	c.Sample(depth, map[string]any{"sub": "nesting", "depth": depth, "open": open, "innermost": inner})
 }
 
 func runConsumerClass(c *core.Case, class string, ci int, d []byte) {
@@ -491,7 +533,7 @@ func trunc(s string) string {
 func init() {
 	core.Register(&core.Monitor{
 		Prop:    "C05",
-		Rule:    "Every document goes through json.Valid and through syntax-only consumers (Marshal of RawMessage / Marshaler output / RawMessage field, Unmarshal into RawMessage, unknown-field skip, RawMessage field, surplus elements of [1]int and [0]int, skipped member between known fields, Decoder framing of d, 'd d' and 'dd'); each is compared with the same operation of encoding/json on the same bytes (accept/reject; for the Decoder the framed values and EOF-vs-error). Families: bytes-exhaustive (all strings of length <= 4 (quick) / 5 (thorough) over a 35-byte JSON-significant alphabet), tokens-exhaustive (all sequences of <= 3 / 4 tokens over a 40-token alphabet), string-sweep (content length 0-40 x every position x 16 special sequences x 5 contexts), number-grammar (sign x int x frac x exp product in 6 contexts), nesting (depth 1..20000 around 10000), mutated (generated documents with 1-3 byte mutations), decoder-stream (streams of 4-140 KiB of self-delimiting values: printable-ASCII values followed or preceded by values with escapes, control and non-ASCII bytes, framed by Decoder vs encoding/json's Decoder). Quick runs one rotating consumer per document besides Valid, thorough all of them. Distinct = distinct chunk / document; non-trivial = non-empty.",
+		Rule:    "Every document goes through json.Valid and through syntax-only consumers (Marshal of RawMessage / Marshaler output / RawMessage field / RawMessage among valid siblings in maps and slices, Unmarshal into RawMessage, unknown-field skip, RawMessage field, surplus elements of [1]int and [0]int, skipped member between known fields, Decoder framing of d, 'd d' and 'dd'); each is compared with the same operation of encoding/json on the same bytes (accept/reject; for the Decoder the framed values and EOF-vs-error). Families: bytes-exhaustive (all strings of length <= 4 (quick) / 5 (thorough) over a 35-byte JSON-significant alphabet), tokens-exhaustive (all sequences of <= 3 / 4 tokens over a 40-token alphabet), string-sweep (content length 0-40 x every position x 16 special sequences x 5 contexts), number-grammar (sign x int x frac x exp product in 6 contexts), nesting (depth 1..20000 around 10000, the innermost value a scalar or one or two more empty levels), mutated (generated documents with 1-3 byte mutations), decoder-stream (streams of 4-140 KiB of self-delimiting values: printable-ASCII values followed or preceded by values with escapes, control and non-ASCII bytes, framed by Decoder vs encoding/json's Decoder). Quick runs one rotating consumer per document besides Valid, thorough all of them. Distinct = distinct chunk / document; non-trivial = non-empty.",
 		Trusted: []string{"encoding/json (go1.23.5): Valid, Marshal, Unmarshal, Decoder as the reference for accept/reject"},
 		Subs: []core.Sub{
 			{Name: "bytes-exhaustive", N: func(t core.Tier) int {
@@ -508,7 +550,7 @@ func init() {
 			}, Run: runTokExh},
 			{Name: "string-sweep", N: core.Const(41, 41), Run: runStringSweep},
 			{Name: "number-grammar", N: core.Const(4, 4), Run: runNumberGrammar},
-			{Name: "nesting", N: func(core.Tier) int { return 3 * len(depths) }, Run: runNesting},
+			{Name: "nesting", N: func(core.Tier) int { return 3 * len(depths) * len(innermost) }, Run: runNesting},
 			{Name: "mutated", N: core.Const(12000, 400000), Run: runMutated},
 			{Name: "decoder-stream", N: core.Const(900, 20000), Run: runDecoderStream},
 		},
